@@ -17,7 +17,7 @@
 (***************************************************************************)
 EXTENDS Integers, Sequences, FiniteSets, TLC
 
-CONSTANTS StepKinds,   \* statement-level steps: "q", "upd", "ins", "del", "ups", "dup", "ddl", "multi", "prep", "prepq", "updw", "qfu"
+CONSTANTS StepKinds,   \* statement-level steps: "q", "upd", "ins", "del", "ups", "dup", "ddl", "multi", "prep", "prepq", "updw", "qfu", "drop" (the server drops idle connections)
           MaxSteps,
           Gtx,         \* subset of BOOLEAN: run inside a global transaction?
           Lits         \* subset of BOOLEAN: literal values instead of bound parameters
